@@ -25,7 +25,7 @@ CONF = {
     "C20": dict(level="exploration", workers=16, quick=dict(cases=500, size=50), thorough=dict(cases=12000, size=80)),
     "C01": dict(level="exploration", workers=16, quick=dict(cases=220, size=60), thorough=dict(cases=4000, size=100)),
     "C02": dict(level="exploration", workers=16, quick=dict(cases=4000, size=60), thorough=dict(cases=60000, size=100)),
-    "C03": dict(level="exploration", workers=16, quick=dict(cases=4000, size=60), thorough=dict(cases=75000, size=100)),
+    "C03": dict(also=dict(quick=[("C18Q", 600)], thorough=[("C18Q", 10000)]), level="exploration", workers=16, quick=dict(cases=4000, size=60), thorough=dict(cases=75000, size=100)),
     "C04": dict(level="exploration", workers=16, quick=dict(cases=4000, size=80), thorough=dict(cases=60000, size=100)),
     "C05": dict(level="exploration", workers=16, quick=dict(cases=500, size=60), thorough=dict(cases=48000, size=100)),
     "C06": dict(level="exploration", workers=16, quick=dict(cases=1500, size=70), thorough=dict(cases=60000, size=100)),
@@ -37,7 +37,7 @@ CONF = {
                 fuzz=[dict(name="fz_session", quick_runs=1200, thorough_runs=60000, max_len=256, jobs=6)]),
     "C12": dict(level="exploration", workers=16, quick=dict(cases=1200, size=70), thorough=dict(cases=48000, size=100)),
     "C10": dict(level="exploration", workers=16, quick=dict(cases=2500, size=60), thorough=dict(cases=45000, size=100)),
-    "C14": dict(level="exploration", workers=16, quick=dict(cases=1200, size=60), thorough=dict(cases=32000, size=100)),
+    "C14": dict(level="exploration", workers=16, quick=dict(cases=700, size=60), thorough=dict(cases=32000, size=100)),
     "C13": dict(level="exploration", workers=16, quick=dict(cases=2000, size=60), thorough=dict(cases=48000, size=100)),
     "C15": dict(level="exploration", workers=16, quick=dict(cases=3000, size=80), thorough=dict(cases=90000, size=100)),
     "C16H": dict(level="exploration", workers=16, quick=dict(cases=600, size=50), thorough=dict(cases=12000, size=100)),
@@ -45,7 +45,7 @@ CONF = {
     "C17": dict(level="exploration", workers=16, quick=dict(cases=8000, size=100), thorough=dict(cases=150000, size=150),
                 fuzz=[]),
     "C18Q": dict(level="exploration", workers=16, quick=dict(cases=1500, size=60), thorough=dict(cases=30000, size=100)),
-    "C18": dict(also=dict(quick=[("C18Q", 1500)], thorough=[("C18Q", 30000)]), level="exploration", workers=16, quick=dict(cases=12000, size=100), thorough=dict(cases=300000, size=150),
+    "C18": dict(also=dict(quick=[("C18Q", 1500), ("C08", 500)], thorough=[("C18Q", 30000), ("C08", 20000)]), level="exploration", workers=16, quick=dict(cases=12000, size=100), thorough=dict(cases=300000, size=150),
                 fuzz=[]),
     "C19": dict(level="exploration", workers=16, quick=dict(cases=10000, size=100), thorough=dict(cases=150000, size=100),
                 fuzz=[dict(name="fz_url", quick_runs=400000, thorough_runs=8000000, max_len=300, dict="fuzz/url.dict")]),
